@@ -24,7 +24,7 @@
    reads, and that clock never goes backwards. *)
 From Coq Require Import ZArith List Bool.
 Import ListNotations.
-From Urwid Require Import PyBase SelectLoop ZmqLoop AdapterLoop SelectLoopSpec SelectLoopFacts SelectLoopProofs ZmqLoopSpec ZmqLoopProofs AdapterLoopSpec AdapterLoopProofs AdapterCheck AdapterCheckProofs.
+From Urwid Require Import PyBase SelectLoop ZmqLoop AdapterLoop SelectLoopSpec SelectLoopFacts SelectLoopProofs ZmqLoopSpec ZmqLoopProofs AdapterLoopSpec AdapterLoopProofs AdapterCheck AdapterCheckProofs TornadoLoop TornadoLoopSpec TornadoLoopProofs.
 Open Scope Z_scope.
 
 Definition history (setup : list action) (beh : behaviour) (env : list step) : list event :=
@@ -620,3 +620,156 @@ Example asyncio_ex :
    ESelect (Some 0) [7] 2 [7]; EWatchCall 7 3 2; EIdleCall 1 4 2;
    ESelect (Some 1) [7] 2 []; EAlarmCall 2 5 3; ERaise true].
 Proof. vm_compute. split; reflexivity. Qed.
+
+
+(* ======================================================================================
+   The TornadoEventLoop wrapper (Model/TornadoLoop.v: alarm with _pending_alarms, remove_alarm,
+   watch_file / remove_watch_file with the watch-handle table, enter_idle / remove_enter_idle,
+   _also_call_idle, _entering_idle, handle_exit incl. BaseException, run) over ANY host, under the
+   same hypothesis [host_ok] on the log of the host's answers.  The contract is the adapter contract
+   except that remove_alarm reports True exactly for a PENDING alarm (as the select loop does).
+   Tied to tornado_loop.py by correspondence on a real tornado AsyncIOLoop over the virtual asyncio
+   loop; the hypothesis is checked run by run by hostok_b as for asyncio.
+   ====================================================================================== *)
+Section Tornado.
+Variable H : Type.
+Variable hst : host H.
+Variable h0 : H.
+
+Definition thistory (setup : list action) (beh : behaviour) (env : list step) (fuel : nat) : list event :=
+  t_trace H (fst (tgscenario H hst h0 setup beh env fuel)).
+Definition thostlog (setup : list action) (beh : behaviour) (env : list step) (fuel : nat) : list hcall :=
+  t_hlog H (fst (tgscenario H hst h0 setup beh env fuel)).
+Definition tresult (setup : list action) (beh : behaviour) (env : list step) (fuel : nat) : outcome :=
+  snd (tgscenario H hst h0 setup beh env fuel).
+
+Theorem tornado_alarm_once_not_early_partial :
+  forall setup beh env fuel newer k id t older,
+    (forall a, In a setup -> action_raises a = false) -> host_ok (thostlog setup beh env fuel) ->
+    thistory setup beh env fuel = newer ++ EAlarmCall k id t :: older ->
+    exists due, aset k due id older /\ due <= t /\ ~ acalled k older /\ ~ aremoved k older.
+Proof.
+  intros setup beh env fuel newer k id t older Hs Hok E.
+  destruct (tornado_contract H hst h0 setup beh env fuel Hs Hok) as [Hh _].
+  destruct (proj1 (hist_ok_split _ _) Hh _ _ _ E) as [due [[P1 [P2 P3]] Hd]]. exists due. auto.
+Qed.
+
+(* remove_alarm: True exactly when the alarm is still pending; hence True once, then False, and False
+   after the alarm has run *)
+Theorem tornado_remove_alarm_result_partial :
+  forall setup beh env fuel newer k ok older,
+    (forall a, In a setup -> action_raises a = false) -> host_ok (thostlog setup beh env fuel) ->
+    thistory setup beh env fuel = newer ++ ERmAlarm k ok :: older ->
+    (ok = true <-> exists d i, pending k d i older).
+Proof.
+  intros setup beh env fuel newer k ok older Hs Hok E.
+  destruct (tornado_contract H hst h0 setup beh env fuel Hs Hok) as [Hh _].
+  exact (proj1 (hist_ok_split _ _) Hh _ _ _ E).
+Qed.
+
+Theorem tornado_watch_until_removed_partial :
+  forall setup beh env fuel newer fd id t older,
+    (forall a, In a setup -> action_raises a = false) -> host_ok (thostlog setup beh env fuel) ->
+    thistory setup beh env fuel = newer ++ EWatchCall fd id t :: older ->
+    watched fd older = Some id.
+Proof.
+  intros setup beh env fuel newer fd id t older Hs Hok E.
+  destruct (tornado_contract H hst h0 setup beh env fuel Hs Hok) as [Hh _].
+  exact (proj1 (hist_ok_split _ _) Hh _ _ _ E).
+Qed.
+
+Theorem tornado_remove_watch_result_partial :
+  forall setup beh env fuel newer fd ok older,
+    (forall a, In a setup -> action_raises a = false) -> host_ok (thostlog setup beh env fuel) ->
+    thistory setup beh env fuel = newer ++ ERmWatch fd ok :: older ->
+    (ok = true <-> watched fd older <> None).
+Proof.
+  intros setup beh env fuel newer fd ok older Hs Hok E.
+  destruct (tornado_contract H hst h0 setup beh env fuel Hs Hok) as [Hh _].
+  exact (proj1 (hist_ok_split _ _) Hh _ _ _ E).
+Qed.
+
+Theorem tornado_idle_before_quiescent_partial :
+  forall setup beh env fuel newer to regs t ready older,
+    (forall a, In a setup -> action_raises a = false) -> host_ok (thostlog setup beh env fuel) ->
+    thistory setup beh env fuel = newer ++ ESelect to regs t ready :: older ->
+    no_raise older /\
+    match to with
+    | None => forall k d i, ~ pending k d i older
+    | Some d => 0 < d -> forall k due i, pending k due i older -> t + d <= due
+    end /\
+    (quiescent to ->
+     exists batch rest, older = batch ++ rest /\
+       (forall e, In e batch -> is_aw_call e = false) /\
+       (forall h id, iset h id rest -> ~ iremoved h older -> exists t', In (EIdleCall h id t') batch)).
+Proof.
+  intros setup beh env fuel newer to regs t ready older Hs Hok E.
+  destruct (tornado_contract H hst h0 setup beh env fuel Hs Hok) as [Hh _].
+  exact (proj1 (hist_ok_split _ _) Hh _ _ _ E).
+Qed.
+
+Theorem tornado_idle_called_only_while_registered_partial :
+  forall setup beh env fuel newer h id t older,
+    (forall a, In a setup -> action_raises a = false) -> host_ok (thostlog setup beh env fuel) ->
+    thistory setup beh env fuel = newer ++ EIdleCall h id t :: older ->
+    iset h id older /\ ~ iremoved h older.
+Proof.
+  intros setup beh env fuel newer h id t older Hs Hok E.
+  destruct (tornado_contract H hst h0 setup beh env fuel Hs Hok) as [Hh _].
+  exact (proj1 (hist_ok_split _ _) Hh _ _ _ E).
+Qed.
+
+(* an exception raised in any callback (alarm, watch or idle; the model does not distinguish Exception
+   from BaseException, and handle_exit catches BaseException) stops the loop and is re-raised *)
+Theorem tornado_exception_partial :
+  forall setup beh env fuel,
+    (forall a, In a setup -> action_raises a = false) -> host_ok (thostlog setup beh env fuel) ->
+    match tresult setup beh env fuel with
+    | ORaised => In (ERaise false) (thistory setup beh env fuel)
+    | OReturned => (exists b, In (ERaise b) (thistory setup beh env fuel)) /\ ~ In (ERaise false) (thistory setup beh env fuel)
+    | OEnvEnd | OBlocked => no_raise (thistory setup beh env fuel)
+    | OSpin => True
+    | OKeyError => False
+    end.
+Proof.
+  intros setup beh env fuel Hs Hok.
+  destruct (tornado_contract H hst h0 setup beh env fuel Hs Hok) as [_ Ho]. exact Ho.
+Qed.
+End Tornado.
+Print Assumptions tornado_alarm_once_not_early_partial.
+Print Assumptions tornado_remove_alarm_result_partial.
+Print Assumptions tornado_watch_until_removed_partial.
+Print Assumptions tornado_remove_watch_result_partial.
+Print Assumptions tornado_idle_before_quiescent_partial.
+Print Assumptions tornado_idle_called_only_while_registered_partial.
+Print Assumptions tornado_exception_partial.
+
+(* on the asyncio host model the hypothesis is checked run by run (as for asyncio) *)
+Theorem tornado_checked_run_contract_partial :
+  forall setup beh env,
+    (forall a, In a setup -> action_raises a = false) ->
+    hostok_b (t_hlog ahost (fst (tscenario setup beh env))) = true ->
+    hist_ok taev_ok (t_trace ahost (fst (tscenario setup beh env))) /\
+    match snd (tscenario setup beh env) with
+    | ORaised => In (ERaise false) (t_trace ahost (fst (tscenario setup beh env)))
+    | OReturned => (exists b, In (ERaise b) (t_trace ahost (fst (tscenario setup beh env)))) /\
+                   ~ In (ERaise false) (t_trace ahost (fst (tscenario setup beh env)))
+    | OEnvEnd | OBlocked => no_raise (t_trace ahost (fst (tscenario setup beh env)))
+    | OSpin => True
+    | OKeyError => False
+    end.
+Proof.
+  intros setup beh env Hs Hb. rewrite tscenario_generic in *.
+  apply (tornado_contract ahost asyncio_host ah_init setup beh env _ Hs). now apply hostok_b_sound.
+Qed.
+Print Assumptions tornado_checked_run_contract_partial.
+
+Example tornado_ex :
+  snd (tscenario ex_setup ex_beh ex_env) = OReturned /\
+  hostok_b (t_hlog ahost (fst (tscenario ex_setup ex_beh ex_env))) = true /\
+  rev (t_trace ahost (fst (tscenario ex_setup ex_beh ex_env))) =
+  [EAlarmSet 0 5 1; EAlarmSet 1 2 2; EWatchSet 7 3; EIdleSet 1 4;
+   ESelect (Some 2) [7] 0 []; EAlarmCall 1 2 2; EAlarmSet 2 3 5;
+   ESelect (Some 0) [7] 2 [7]; EWatchCall 7 3 2; EIdleCall 1 4 2;
+   ESelect (Some 1) [7] 2 []; EAlarmCall 2 5 3; ERaise true].
+Proof. vm_compute. repeat split; reflexivity. Qed.
